@@ -35,7 +35,7 @@ func chanOpsIn(info *types.Info, n ast.Node, intoLits bool) []chanOp {
 			}
 		case *ast.CallExpr:
 			if id, ok := s.Fun.(*ast.Ident); ok {
-				if b, ok := info.Uses[id].(*types.Builtin); ok && b.Name() == "close" && len(s.Args) == 1 {
+				if b, ok := info.Uses[id].(*types.Builtin); ok && objName(b) == "close" && len(s.Args) == 1 {
 					out = append(out, chanOp{"close", fieldOf(info, s.Args[0]), s.Pos(), s, nil})
 				}
 			}
@@ -195,7 +195,7 @@ func checkC12(c *Check) {
 		for i := 0; i < st.NumFields(); i++ {
 			f := st.Field(i)
 			switch {
-			case f.Name() == "dispatch":
+			case objName(f) == "dispatch":
 				dispatchField = f
 			case typeIs(f.Type(), "container/list", "List"):
 				slotsField = f
@@ -463,7 +463,7 @@ func checkC12(c *Check) {
 				return true
 			}
 			lf := p.FlowOf(info, abody, "dispatch$attempt")
-			semField := func(e ast.Expr) bool { fv := fieldOf(info, e); return fv != nil && fv.Name() == "deliverySemaphore" }
+			semField := func(e ast.Expr) bool { fv := fieldOf(info, e); return fv != nil && objName(fv) == "deliverySemaphore" }
 			var acquires, defers []Pt
 			for _, pt := range lf.Points() {
 				nd := pt.Node()
@@ -547,13 +547,13 @@ func checkC12(c *Check) {
 				case *ast.AssignStmt:
 					for _, l := range st.Lhs {
 						if fv := fieldOf(info, l); fv != nil && used[fv] {
-							msg = "Close assigns " + fv.Name() + ", which a concurrent Add that already passed the stopped check still uses (nil dereference / send on nil channel in a delivery goroutine: the message is marked broken)"
+							msg = "Close assigns " + objName(fv) + ", which a concurrent Add that already passed the stopped check still uses (nil dereference / send on nil channel in a delivery goroutine: the message is marked broken)"
 						}
 					}
 				case *ast.CallExpr:
 					if id, ok := st.Fun.(*ast.Ident); ok && id.Name == "close" && len(st.Args) == 1 {
 						if fv := fieldOf(info, st.Args[0]); fv != nil && used[fv] && !selectRecv[fv] {
-							msg = "Close closes channel " + fv.Name() + " which Add sends on"
+							msg = "Close closes channel " + objName(fv) + " which Add sends on"
 						}
 					}
 				}
